@@ -240,7 +240,12 @@ func (f *Func) callGraph(args *argBuilder) (
 		}
 	}
 
-	log.Trace("full graph (may have cycles)", "graph", g.String())
+	// Rendering the graph formats every supplied value (with %v, which may
+	// be expensive, calls the values' own String methods and does not
+	// terminate for self-referential values), so only do it when asked to.
+	if log.IsTrace() {
+		log.Trace("full graph (may have cycles)", "graph", g.String())
+	}
 	verifGraph("callgraph.full", &g, nil, vertexRoot, vertexF, nil)
 
 	// Next we do a DFS from each input A in I to the function F.
@@ -277,7 +282,9 @@ func (f *Func) callGraph(args *argBuilder) (
 			g.Remove(v)
 		}
 	}
-	log.Trace("graph after input DFS", "graph", g.String())
+	if log.IsTrace() {
+		log.Trace("graph after input DFS", "graph", g.String())
+	}
 	verifGraph("callgraph.pruned", &g, nil, vertexRoot, vertexF, nil)
 
 	// Go through all our inputs. If any aren't in the graph any longer
